@@ -46,3 +46,16 @@ def agree(y_true, y_pred):
 
 def register(R):
     R.specfn(SPEC)
+    # library lemmas about sums of integer sequences (instantiated automatically at append / slice sites)
+    R.lemma("vsum_frame", params={"a": "List[Int]", "k": "Int", "v": "Int", "lo": "Int", "hi": "Int"},
+            requires=["k >= hi", "lo <= hi"], ensures=["asum(store(a, k, v), lo, hi) == asum(a, lo, hi)"],
+            induct=("hi", "lo"))
+    R.lemma("vsum_split", params={"a": "List[Int]", "lo": "Int", "m": "Int", "hi": "Int"},
+            requires=["lo <= m", "m <= hi"], ensures=["asum(a, lo, hi) == asum(a, lo, m) + asum(a, m, hi)"],
+            induct=("hi", "m"))
+    R.lemma("vsum_bits", params={"a": "List[Int]", "lo": "Int", "hi": "Int"},
+            requires=["0 <= lo", "lo <= hi", "forall(i, lo, hi, a[i] == 0 or a[i] == 1)"],
+            ensures=["0 <= asum(a, lo, hi)", "asum(a, lo, hi) <= hi - lo"], induct=("hi", "lo"))
+    # Welford-style update: the deviation accumulator never decreases (needed for "std >= 0" invariants)
+    R.lemma("welford_nonneg", params={"d": "Real", "m0": "Real", "n": "Int"}, requires=["n >= 1"],
+            ensures=["(d - (m0 + (d - m0) / n)) * (d - m0) >= 0"])
